@@ -357,6 +357,8 @@ type reachInfo struct {
 	entryReach map[*ssa.BasicBlock]bool
 	firstBlock map[*ssa.BasicBlock]int // index of first blocker in block, or -1
 	pred       map[*ssa.BasicBlock]*ssa.BasicBlock
+	from       ssa.Instruction
+	blocker    func(ssa.Instruction) bool
 }
 
 func reachWithout(fn *ssa.Function, blocker func(ssa.Instruction) bool) *reachInfo {
@@ -365,7 +367,7 @@ func reachWithout(fn *ssa.Function, blocker func(ssa.Instruction) bool) *reachIn
 
 // reachWithoutFrom starts after instruction `from` (or at the entry if nil).
 func reachWithoutFrom(fn *ssa.Function, from ssa.Instruction, blocker func(ssa.Instruction) bool) *reachInfo {
-	ri := &reachInfo{entryReach: map[*ssa.BasicBlock]bool{}, firstBlock: map[*ssa.BasicBlock]int{}, pred: map[*ssa.BasicBlock]*ssa.BasicBlock{}}
+	ri := &reachInfo{entryReach: map[*ssa.BasicBlock]bool{}, firstBlock: map[*ssa.BasicBlock]int{}, pred: map[*ssa.BasicBlock]*ssa.BasicBlock{}, from: from, blocker: blocker}
 	for _, b := range fn.Blocks {
 		ri.firstBlock[b] = -1
 		for i, in := range b.Instrs {
@@ -421,6 +423,18 @@ func reachWithoutFrom(fn *ssa.Function, from ssa.Instruction, blocker func(ssa.I
 
 func (ri *reachInfo) Reaches(instr ssa.Instruction) bool {
 	b := instr.Block()
+	if ri.from != nil && ri.from.Block() == b && instrIndex(instr) > instrIndex(ri.from) {
+		// straight-line remainder of the starting block
+		blocked := false
+		for i := instrIndex(ri.from) + 1; i < instrIndex(instr); i++ {
+			if ri.blocker(b.Instrs[i]) {
+				blocked = true
+			}
+		}
+		if !blocked {
+			return true
+		}
+	}
 	if !ri.entryReach[b] {
 		return false
 	}
